@@ -791,7 +791,10 @@ public:          // need to be public due to CRTP
   /////////////// NONLINEAR FUNCTIONS ////////////////
   ////////////////////////////////////////////////////
   EExpr VisitPowConstExp(BinaryExpr e) {
-    auto c = Cast<NumericConstant>(e.rhs()).value();
+    auto er = Convert2EExpr(e.rhs());
+    if (!er.is_constant())           // exponent not a constant: general case
+      return VisitPow(e);
+    auto c = er.constant_term();
     if (2.0==c && IfQuadratizePow2()) {
       auto el = Convert2EExpr(e.lhs());
       return QuadratizeOrLinearize(el, el);
@@ -841,9 +844,12 @@ public:          // need to be public due to CRTP
   }
 
   EExpr VisitPowConstBase(BinaryExpr e) {
+    auto el = Convert2EExpr(e.lhs());  // may be a constant expression, e.g. (1+1)^x
+    if (!el.is_constant())
+      MP_RAISE("Unsupported: operator ^ with variable base and exponent");
     return AssignResult2Args( ExpAConstraint(
       ExpAConstraint::Arguments{ Convert2Var(e.rhs()) },
-      ExpAConstraint::Parameters{ Cast<NumericConstant>(e.lhs()).value() } ) );
+      ExpAConstraint::Parameters{ el.constant_term() } ) );
   }
 
   EExpr VisitLog(UnaryExpr e) {
